@@ -22,6 +22,9 @@ Model/Rrl.vos Model/Rrl.vok Model/Rrl.required_vos: Model/Rrl.v Base/Res.vos Bas
 Model/RrlConc.vo Model/RrlConc.glob Model/RrlConc.v.beautified Model/RrlConc.required_vo: Model/RrlConc.v Model/Rrl.vo
 Model/RrlConc.vio: Model/RrlConc.v Model/Rrl.vio
 Model/RrlConc.vos Model/RrlConc.vok Model/RrlConc.required_vos: Model/RrlConc.v Model/Rrl.vos
+Model/RrlConcT.vo Model/RrlConcT.glob Model/RrlConcT.v.beautified Model/RrlConcT.required_vo: Model/RrlConcT.v Model/Rrl.vo Model/RrlConc.vo
+Model/RrlConcT.vio: Model/RrlConcT.v Model/Rrl.vio Model/RrlConc.vio
+Model/RrlConcT.vos Model/RrlConcT.vok Model/RrlConcT.required_vos: Model/RrlConcT.v Model/Rrl.vos Model/RrlConc.vos
 Proofs/NameWireP.vo Proofs/NameWireP.glob Proofs/NameWireP.v.beautified Proofs/NameWireP.required_vo: Proofs/NameWireP.v Base/ListX.vo Model/NameWire.vo Spec/NameWireS.vo Spec/NameRepr.vo
 Proofs/NameWireP.vio: Proofs/NameWireP.v Base/ListX.vio Model/NameWire.vio Spec/NameWireS.vio Spec/NameRepr.vio
 Proofs/NameWireP.vos Proofs/NameWireP.vok Proofs/NameWireP.required_vos: Proofs/NameWireP.v Base/ListX.vos Model/NameWire.vos Spec/NameWireS.vos Spec/NameRepr.vos
@@ -31,6 +34,9 @@ Proofs/NameWireSP.vos Proofs/NameWireSP.vok Proofs/NameWireSP.required_vos: Proo
 Proofs/RrlConcP.vo Proofs/RrlConcP.glob Proofs/RrlConcP.v.beautified Proofs/RrlConcP.required_vo: Proofs/RrlConcP.v Base/Res.vo Base/Octets.vo Model/Rrl.vo Model/RrlConc.vo Spec/RrlBucketS.vo Proofs/RrlP.vo
 Proofs/RrlConcP.vio: Proofs/RrlConcP.v Base/Res.vio Base/Octets.vio Model/Rrl.vio Model/RrlConc.vio Spec/RrlBucketS.vio Proofs/RrlP.vio
 Proofs/RrlConcP.vos Proofs/RrlConcP.vok Proofs/RrlConcP.required_vos: Proofs/RrlConcP.v Base/Res.vos Base/Octets.vos Model/Rrl.vos Model/RrlConc.vos Spec/RrlBucketS.vos Proofs/RrlP.vos
+Proofs/RrlConcTP.vo Proofs/RrlConcTP.glob Proofs/RrlConcTP.v.beautified Proofs/RrlConcTP.required_vo: Proofs/RrlConcTP.v Base/Res.vo Base/Octets.vo Model/Rrl.vo Model/RrlConc.vo Model/RrlConcT.vo Proofs/RrlP.vo Proofs/RrlConcP.vo
+Proofs/RrlConcTP.vio: Proofs/RrlConcTP.v Base/Res.vio Base/Octets.vio Model/Rrl.vio Model/RrlConc.vio Model/RrlConcT.vio Proofs/RrlP.vio Proofs/RrlConcP.vio
+Proofs/RrlConcTP.vos Proofs/RrlConcTP.vok Proofs/RrlConcTP.required_vos: Proofs/RrlConcTP.v Base/Res.vos Base/Octets.vos Model/Rrl.vos Model/RrlConc.vos Model/RrlConcT.vos Proofs/RrlP.vos Proofs/RrlConcP.vos
 Proofs/RrlFreshP.vo Proofs/RrlFreshP.glob Proofs/RrlFreshP.v.beautified Proofs/RrlFreshP.required_vo: Proofs/RrlFreshP.v Base/Res.vo Base/Octets.vo Model/Rrl.vo Spec/RrlBucketS.vo Proofs/RrlP.vo Proofs/RrlKeyP.vo
 Proofs/RrlFreshP.vio: Proofs/RrlFreshP.v Base/Res.vio Base/Octets.vio Model/Rrl.vio Spec/RrlBucketS.vio Proofs/RrlP.vio Proofs/RrlKeyP.vio
 Proofs/RrlFreshP.vos Proofs/RrlFreshP.vok Proofs/RrlFreshP.required_vos: Proofs/RrlFreshP.v Base/Res.vos Base/Octets.vos Model/Rrl.vos Spec/RrlBucketS.vos Proofs/RrlP.vos Proofs/RrlKeyP.vos
@@ -52,9 +58,9 @@ Props/C26.vos Props/C26.vok Props/C26.required_vos: Props/C26.v Base/Res.vos Bas
 Props/C27.vo Props/C27.glob Props/C27.v.beautified Props/C27.required_vo: Props/C27.v Base/Res.vo Base/Octets.vo Model/Rrl.vo Spec/RrlBucketS.vo Spec/RrlStreamS.vo Proofs/RrlP.vo Proofs/RrlKeyP.vo Proofs/RrlFreshP.vo
 Props/C27.vio: Props/C27.v Base/Res.vio Base/Octets.vio Model/Rrl.vio Spec/RrlBucketS.vio Spec/RrlStreamS.vio Proofs/RrlP.vio Proofs/RrlKeyP.vio Proofs/RrlFreshP.vio
 Props/C27.vos Props/C27.vok Props/C27.required_vos: Props/C27.v Base/Res.vos Base/Octets.vos Model/Rrl.vos Spec/RrlBucketS.vos Spec/RrlStreamS.vos Proofs/RrlP.vos Proofs/RrlKeyP.vos Proofs/RrlFreshP.vos
-Props/C28.vo Props/C28.glob Props/C28.v.beautified Props/C28.required_vo: Props/C28.v Base/Res.vo Base/Octets.vo Model/Rrl.vo Model/RrlConc.vo Proofs/RrlP.vo Proofs/RrlConcP.vo
-Props/C28.vio: Props/C28.v Base/Res.vio Base/Octets.vio Model/Rrl.vio Model/RrlConc.vio Proofs/RrlP.vio Proofs/RrlConcP.vio
-Props/C28.vos Props/C28.vok Props/C28.required_vos: Props/C28.v Base/Res.vos Base/Octets.vos Model/Rrl.vos Model/RrlConc.vos Proofs/RrlP.vos Proofs/RrlConcP.vos
+Props/C28.vo Props/C28.glob Props/C28.v.beautified Props/C28.required_vo: Props/C28.v Base/Res.vo Base/Octets.vo Model/Rrl.vo Model/RrlConc.vo Model/RrlConcT.vo Proofs/RrlP.vo Proofs/RrlConcP.vo Proofs/RrlConcTP.vo
+Props/C28.vio: Props/C28.v Base/Res.vio Base/Octets.vio Model/Rrl.vio Model/RrlConc.vio Model/RrlConcT.vio Proofs/RrlP.vio Proofs/RrlConcP.vio Proofs/RrlConcTP.vio
+Props/C28.vos Props/C28.vok Props/C28.required_vos: Props/C28.v Base/Res.vos Base/Octets.vos Model/Rrl.vos Model/RrlConc.vos Model/RrlConcT.vos Proofs/RrlP.vos Proofs/RrlConcP.vos Proofs/RrlConcTP.vos
 Spec/NameRepr.vo Spec/NameRepr.glob Spec/NameRepr.v.beautified Spec/NameRepr.required_vo: Spec/NameRepr.v Model/NameWire.vo Spec/NameWireS.vo
 Spec/NameRepr.vio: Spec/NameRepr.v Model/NameWire.vio Spec/NameWireS.vio
 Spec/NameRepr.vos Spec/NameRepr.vok Spec/NameRepr.required_vos: Spec/NameRepr.v Model/NameWire.vos Spec/NameWireS.vos
